@@ -18,6 +18,8 @@ ADVERSARIAL_POOL = [
     "x_in", "my_or", "band", "if_", "ins", "i", "n", "o", "d",
     # underscore / case / single letters
     "_", "_x", "__a", "X", "Abc", "camelCase", "UPPER_CASE", "a1", "z", "In", "Not", "IF", "Def",
+    # names of the choice function's own parameters / of variables a code generator might use
+    "population", "weights", "cum_weights", "input_id", "key", "composite_key", "args", "cls", "fn", "code_holder", "ast", "OR", "AND",
 ]
 # K1 (known finding): DSL identifiers that are not usable as Python names in the generated code
 PY_RESERVED = set(keyword.kwlist) | {"True", "False", "None", "__debug__"}
